@@ -621,9 +621,9 @@ Definition deliver (x : xs) : delivered :=
     else DError                                                  (* Client::handleAdaptationAborted: "TODO: bypass if possible" *)
   end.
 
-(* the observation classes of the end-to-end check; a_cl / a_len: the adapted HTTP head carries Content-Length = a_len *)
+(* the observation classes of the end-to-end check *)
 Inductive obs := OVirgin | OAdapted | OError | OTruncAdapted | OTruncVirgin | OStuck.
-Definition view (a_cl : bool) (a_len : N) (x : xs) : obs :=
+Definition view (x : xs) : obs :=
   if negb (stopped (job x)) then OStuck else
   match deliver x with
   | DVirginUntouched => OVirgin
@@ -631,9 +631,10 @@ Definition view (a_cl : bool) (a_len : N) (x : xs) : obs :=
   | DMessage SrcVirgin _ _ true => OVirgin
   | DMessage SrcVirgin _ _ false => if c_reqmod (cfg x) then OError else OTruncVirgin
   | DMessage SrcAdapted _ _ true => OAdapted
-  | DMessage SrcAdapted isreply body false =>
-    if a_cl && (lenN body =? a_len) then OAdapted
-    else if c_reqmod (cfg x) && negb isreply then OError else OTruncAdapted
+  | DMessage SrcAdapted isreply _ false =>
+    (* an aborted adapted request never reaches the origin as a complete request; an aborted adapted reply is
+       relayed visibly incomplete *)
+    if c_reqmod (cfg x) && negb isreply then OError else OTruncAdapted
   end.
 
 (* ---------------------------------------------------------------- scripted ICAP server and canonical schedule
@@ -681,13 +682,14 @@ Inductive sphase := SWaitFirst | SWaitRest | STalk (q : list sitem).
 
 (* one scheduling decision; None = nothing can happen any more *)
 Definition sched (first then_ : action) (early : bool) (x : xs) (vrest : bytes) (ph : sphase) : option (event * bytes * sphase) :=
-  if writer (io x) then Some (EvWrote, vrest, ph)
-  else if is_writing WInit x then Some (EvStart, vrest, ph)
-  else if is_writing WConnect x && negb (conn (io x)) then Some (EvConnected, vrest, ph)
-  else if 0 <? ad_buf (ad x) then Some (EvSpace (ad_buf (ad x)), vrest, ph)
+  (* the virgin body (as much as the pipe takes) and its end are there before the ICAP connection is up *)
+  if is_writing WInit x then Some (EvStart, vrest, ph)
   else if vb_expected (cfg x) && producing x && negb (lenN vrest =? 0) && (0 <? vspace x)
   then Some (EvVData (takeN (vspace x) vrest), dropN (vspace x) vrest, ph)
   else if vb_expected (cfg x) && producing x && (lenN vrest =? 0) then Some (EvVEnd, vrest, ph)
+  else if writer (io x) then Some (EvWrote, vrest, ph)
+  else if is_writing WConnect x && negb (conn (io x)) then Some (EvConnected, vrest, ph)
+  else if 0 <? ad_buf (ad x) then Some (EvSpace (ad_buf (ad x)), vrest, ph)
   else
     let w := wire (io x) in
     let body := vb_expected (cfg x) in
@@ -727,5 +729,5 @@ Fixpoint drive (fuel : nat) (first then_ : action) (early : bool) (x : xs) (vres
     end
   end.
 
-Definition simulate (c : cfg_t) (vbody : bytes) (first then_ : action) (early : bool) (a_cl : bool) (a_len : N) : obs :=
-  view a_cl a_len (drive 4000 first then_ early (init c) vbody SWaitFirst).
+Definition simulate (c : cfg_t) (vbody : bytes) (first then_ : action) (early : bool) : obs :=
+  view (drive 4000 first then_ early (init c) vbody SWaitFirst).
